@@ -858,38 +858,38 @@ def processEvents (s : Seq) (isSeek : Bool) : Bool × Seq × List Out :=
 
 /-! ## Tick, seek, rewind -/
 
-def tickLoop (gran : Rat) : Nat → Nat → Seq → List Out → Seq × List Out × Nat
+def tickLoop (gran : Rat) : Nat → Nat → Seq → List (List Out) → Seq × List (List Out) × Nat
   | 0, af, s, outs => (s, outs, af)
   | fuel + 1, af, s, outs =>
     if s.cur.wait ≤ fmul gran (1 / 2) && af > 0 then
       let (cont, s, o) := processEvents s false
-      if !cont then (s, outs ++ o, af) else
-      tickLoop gran fuel (if s.cur.wait ≤ 0 then af - 1 else af) s (outs ++ o)
+      if !cont then (s, o :: outs, af) else
+      tickLoop gran fuel (if s.cur.wait ≤ 0 then af - 1 else af) s (o :: outs)
     else (s, outs, af)
 
-/-- BW_MidiSequencer::Tick: returns the delay until the next call -/
+/-- BW_MidiSequencer::Tick: returns the delay until the next call (the outputs are collected newest-first and flattened once) -/
 def tick (s : Seq) (sec gran : Rat) (fuel : Nat) : Seq × List Out × Rat :=
   let sec := fmul sec s.tempoMult
   let s := { s with cur := { s.cur with wait := fsub s.cur.wait sec, absTime := fadd s.cur.absTime sec } }
   let (s, outs, af) := tickLoop gran fuel 10000 s []
   let s := if af == 0 then { s with cur := { s.cur with wait := fadd s.cur.wait 1 } } else s
-  (s, outs, if s.cur.wait < 0 then 0 else fdiv s.cur.wait s.tempoMult)
+  (s, outs.reverse.flatten, if s.cur.wait < 0 then 0 else fdiv s.cur.wait s.tempoMult)
 
 def rewind (s : Seq) : Seq :=
   { s with cur := s.beginPos, atEnd := false,
            loop := { ({ s.loop with loopsCount := s.loopCount } : Loop).reset with caughtStart := true, temporaryBroken := false } }
 
-def seekInner (half : Rat) : Nat → Nat → Rat → Seq → List Out → Seq × List Out × Nat
+def seekInner (half : Rat) : Nat → Nat → Rat → Seq → List (List Out) → Seq × List (List Out) × Nat
   | 0, af, _, s, outs => (s, outs, af)
   | fuel + 1, af, dst, s, outs =>
     if s.cur.wait ≤ half then
       let (cont, s, o) := processEvents s true
-      if !cont then (s, outs ++ o, af) else
-      if s.cur.wait ≤ dst then seekInner half fuel (af - 1) dst s (outs ++ o)
-      else seekInner half fuel 10000 (fadd s.cur.wait half) s (outs ++ o)
+      if !cont then (s, o :: outs, af) else
+      if s.cur.wait ≤ dst then seekInner half fuel (af - 1) dst s (o :: outs)
+      else seekInner half fuel 10000 (fadd s.cur.wait half) s (o :: outs)
     else (s, outs, af)
 
-def seekOuter (seconds half : Rat) : Nat → Nat → Seq → List Out → Seq × List Out
+def seekOuter (seconds half : Rat) : Nat → Nat → Seq → List (List Out) → Seq × List (List Out)
   | 0, _, s, outs => (s, outs)
   | fuel + 1, inner, s, outs =>
     if s.cur.absTime < seconds && s.cur.absTime < s.fullLen then
@@ -907,6 +907,7 @@ def seek (s : Seq) (seconds gran : Rat) (fuel : Nat) : Seq × List Out × Rat :=
   let s := rewind { s with loopEnabled := false }
   let s := { s with loop := { s.loop with caughtStart := false, temporaryBroken := seconds ≥ s.loopEndTime } }
   let (s, outs) := seekOuter seconds (fmul gran (1 / 2)) 4 fuel s []
+  let outs := outs.reverse.flatten
   let s := if s.cur.wait < 0 then { s with cur := { s.cur with wait := 0 } } else s
   if s.atEnd then ({ rewind s with loopEnabled := flag }, outs, 0)
   else ({ s with loopEnabled := flag }, outs, fdiv s.cur.wait s.tempoMult)
